@@ -427,6 +427,9 @@ class Exec:
 
     def set_attr(self, obj, attr, value):
         if isinstance(obj, SObj):
+            if attr in obj._fields and attr not in obj._written:
+                # first assignment of a field whose entry value the code has seen: keep it for a.old / OldView(obj, {})
+                obj.__dict__.setdefault("_entry", {}).setdefault(attr, obj._fields[attr])
             obj._fields[attr] = value
             obj._written.add(attr)
             return
@@ -450,6 +453,11 @@ class Exec:
             return bool(v)
         if isinstance(v, AList):
             return v.length > 0
+        if isinstance(v, OMap):
+            # emptiness of a dict of objects: one unknown per map (not related to its membership tests: an over-approximation)
+            if "nonempty" not in v.__dict__:
+                v.__dict__["nonempty"] = z3.Bool(fresh_name(v.name + "#nonempty"))
+            return v.__dict__["nonempty"]
         if isinstance(v, ADict):
             k = z3.FreshConst(v.key_sort, "k")
             return z3.Exists([k], z3.Select(v.present, k))
@@ -797,6 +805,7 @@ class Exec:
         if isinstance(container, OMap):
             b = z3.Bool(fresh_name(container.name + "#has"))
             container.tests.append((item, b))
+            container.all_tests.append((item, b))
             return b
         if isinstance(container, ASet):
             return z3.Select(container.member, lift(item))
